@@ -509,7 +509,16 @@ impl<I: Hash + Eq, A: Hash + Eq> Game<I, A> {
                             }
                             compact::Entry::Occupied(ent) => {
                                 let (ind, data) = ent.get();
-                                if *data.probs != *probs {
+                                // NOTE normalizing rounds, so proportional weights can differ in
+                                // the last bits; the rounding is bounded by one ulp per outcome
+                                let tol = f64::EPSILON * probs.len() as f64;
+                                if data.probs.len() != probs.len()
+                                    || data
+                                        .probs
+                                        .iter()
+                                        .zip(probs.iter())
+                                        .any(|(a, b)| (a - b).abs() > tol * a.max(*b))
+                                {
                                     Err(GameError::ProbabilitiesNotEqual)
                                 } else {
                                     Ok(ind)
